@@ -847,6 +847,12 @@ def gen_call(rng, op: Op, force: Optional[str] = None) -> dict:
                 call["attrs"]["num_outputs"] = call["out_count"]
     if rng.random() < 0.07:
         zeroize(rng, call)
+    # the same attribute value spelled as a caller may: tuple / one-shot generator / numpy array /
+    # numpy scalar / bool for 0-1 / int for an integral float
+    for aname, val in call["attrs"].items():
+        opts = spellings_for(val)
+        if opts and rng.random() < 0.12:
+            call.setdefault("spell", {})[aname] = rng.choice(opts)
     return _ambient(rng, call)
 
 
@@ -1328,7 +1334,48 @@ def make_vars(call):
     return out
 
 
-def spox_attr_value(cls, aname, val):
+def spellings_for(val):
+    """the ways a caller may spell the same attribute value (all accepted by the annotations:
+    Iterable[int], int, float ...)"""
+    if isinstance(val, bool) or isinstance(val, dict) or val is None:
+        return []
+    if isinstance(val, int):
+        return ["npscalar", "npscalar32"] + (["bool"] if val in (0, 1) else [])
+    if isinstance(val, float):
+        return ["npscalar"] + (["npscalar32"] if float(np.float32(val)) == val else []) + (["int"] if val == int(val) else [])
+    if isinstance(val, list):
+        if all(isinstance(x, int) and not isinstance(x, bool) for x in val):
+            return ["tuple", "generator", "nparray", "nparray32"]
+        if all(isinstance(x, float) for x in val):
+            return ["tuple", "generator", "nparray"] + (["nparray32"] if all(float(np.float32(x)) == x for x in val) else [])
+        if all(isinstance(x, str) for x in val):
+            return ["tuple", "generator"]
+    return []
+
+
+def spell(val, how):
+    if how == "tuple":
+        return tuple(val)
+    if how == "generator":
+        return (x for x in list(val))  # one-shot
+    if how == "nparray":
+        return np.array(val, dtype=np.int64 if all(isinstance(x, int) for x in val) else np.float64)
+    if how == "nparray32":
+        return np.array(val, dtype=np.int32 if all(isinstance(x, int) for x in val) else np.float32)
+    if how == "npscalar":
+        return np.int64(val) if isinstance(val, int) else np.float64(val)
+    if how == "npscalar32":
+        return np.int32(val) if isinstance(val, int) else np.float32(val)
+    if how == "bool":
+        return bool(val)
+    if how == "int":
+        return int(val)
+    return val
+
+
+def spox_attr_value(cls, aname, val, how=None):
+    if how and how in spellings_for(val):  # (a history variant may have changed the value: spell it only if it still fits)
+        return spell(val, how)
     if isinstance(val, dict) and "dtype" in val:
         return np.dtype(NP_OF[val["dtype"]])
     if isinstance(val, dict) and "tensor" in val:
@@ -1439,7 +1486,7 @@ def run_spox(op: Op, call, value_prop: bool = False, vs=None, keep_outputs: bool
             else:
                 kwargs[pname] = vs[a]
         for aname, val in call["attrs"].items():
-            kwargs[aname] = spox_attr_value(None, aname, val)
+            kwargs[aname] = spox_attr_value(None, aname, val, (call.get("spell") or {}).get(aname))
         if call.get("sub"):
             idn = module_constructors(op.module)["Identity"]
             sub = call["sub"]
@@ -1670,6 +1717,14 @@ def _variant_of(rng, op: Op, base: dict, vars_: list, facet: str):
     O = onnx.defs.OpSchema.FormalParameterOption
     c = copy.deepcopy({k: v for k, v in base.items() if k != "vars"})
     c["vars"] = vars_  # shared list object
+    if facet == "ambient":
+        # the very same call under another ambient setting (type-warning level / value-propagation
+        # mode): neither may change the verdict or leave something behind for the other call
+        if rng.random() < 0.5:
+            c["twl"] = rng.choice([x for x in TWL if x != base.get("twl")])
+        else:
+            c["vp"] = rng.choice([x for x in ("none", "default", "reference") if x != (base.get("vp") or "none")])
+        return c
     if facet == "out_count":
         if not _variadic_output(op) and not base.get("sub"):
             return None
@@ -1805,7 +1860,7 @@ def _variant_of(rng, op: Op, base: dict, vars_: list, facet: str):
     return None
 
 
-FACETS = ["out_count", "attr", "const", "optional", "shape"]
+FACETS = ["out_count", "attr", "const", "optional", "shape", "ambient"]
 
 
 def gen_history(rng, op: Op, want_facet: Optional[str] = None) -> Optional[dict]:
